@@ -71,6 +71,7 @@ class FakeTransport(asyncio.DatagramTransport):
         self.sent = []  # (t, data, addr)
         self.late_deliveries = 0
         self.owner_tag = world.current_owner_tag()
+        self.handed_over = False  # create_datagram_endpoint has returned this transport to its caller
 
     def sendto(self, data, addr=None):
         if self.closed:
@@ -149,10 +150,19 @@ class VLoop(asyncio.SelectorEventLoop):
         super()._run_once()
 
     async def create_datagram_endpoint(self, protocol_factory, local_addr=None, remote_addr=None, **kw):
+        # mirrors BaseEventLoop.create_datagram_endpoint: the transport exists (and announces itself through
+        # call_soon) before the coroutine returns it, and is closed again if the caller is cancelled while waiting
         protocol = protocol_factory()
         transport = self.world.new_transport(protocol, kw)
-        await asyncio.sleep(0)
-        protocol.connection_made(transport)
+        waiter = self.create_future()
+        self.call_soon(protocol.connection_made, transport)
+        self.call_soon(lambda: waiter.done() or waiter.set_result(None))
+        try:
+            await waiter
+        except BaseException:
+            transport.close()
+            raise
+        transport.handed_over = True
         return transport, protocol
 
 
